@@ -98,6 +98,8 @@ SPEC_NAMES = {
     "bridge_waits",
     "h2_window",
     "h2_max_frame",
+    "h2_sendable",
+    "call_raised",
 }
 
 
@@ -703,6 +705,17 @@ class SpecMixin:
 
         return BOTTOM
 
+    def sp_call_raised(self, e, fr):
+        """call_raised('C.m'): the exception object the (first) contract call whose name ends with
+        that text raised in this unit; undefined if no such call raised"""
+        name = e.args[0].value
+        for x in self.traces.get("raised", []):
+            if isinstance(x, tuple) and isinstance(x[0], str) and x[0].endswith(name):
+                return x[1]
+        from .interp import BOTTOM
+
+        return BOTTOM
+
     def sp_runs_action(self, e, fr):
         """runs_action(entry, action): the spawned entry (a coroutine made by calling `action`, a
         (fn, *args) tuple given to a nursery, or such a tuple whose fn is a wrapper closure that
@@ -765,6 +778,13 @@ class SpecMixin:
         w = z3.Select(conn.fields["win"], sid)
         c = conn.fields["cwin"]
         return mk_int(z3.If(c < w, c, w))
+
+    def sp_h2_sendable(self, e, fr):
+        """h2_sendable(conn, stream_id): the local side of the stream is still open in h2's state
+        machine (neither END_STREAM nor RST_STREAM was sent on it) and the connection is not closed"""
+        conn = self.ev(e.args[0], fr)
+        sid = z3_of_int(self.ev(e.args[1], fr))
+        return mk_bool(z3.And(z3.Select(conn.fields["open"], sid), z3.Not(conn.fields["conn_closed"])))
 
     def sp_h2_max_frame(self, e, fr):
         conn = self.ev(e.args[0], fr)
